@@ -11,12 +11,19 @@ import ast, inspect, textwrap, itertools, hashlib
 import z3
 
 
+def unwrap_fn(fn):
+    """plain Python function behind numba dispatchers, staticmethods and the sweep's summarising wrappers"""
+    for _ in range(4):
+        fn = getattr(fn, "__wrapped__", fn)
+        fn = getattr(fn, "py_func", fn)
+        if isinstance(fn, (staticmethod, classmethod)):
+            fn = fn.__func__
+    return fn
+
+
 def fn_source(fn):
     """(qualified name, dedented source text, sha1) of a function as found in /repo right now"""
-    fn = getattr(fn, "py_func", fn)
-    if isinstance(fn, (staticmethod, classmethod)):
-        fn = fn.__func__
-        fn = getattr(fn, "py_func", fn)
+    fn = unwrap_fn(fn)
     src = textwrap.dedent(inspect.getsource(fn))
     return fn.__module__ + "." + fn.__qualname__, src, hashlib.sha1(src.encode()).hexdigest()[:12]
 
@@ -180,10 +187,7 @@ class Interp:
     # ---------- function calls
     def call_function(self, fn, args, kwargs=None, guard=True):
         kwargs = kwargs or {}
-        fn = getattr(fn, "py_func", fn)
-        if isinstance(fn, staticmethod):
-            fn = fn.__func__
-            fn = getattr(fn, "py_func", fn)
+        fn = unwrap_fn(fn)
         qn_, src, sha = fn_source(fn)
         self.ctx.encoded[qn_] = sha
         tree = ast.parse(src)
@@ -206,6 +210,15 @@ class Interp:
                 fr.env[name] = self.eval(d, fr)
         self.exec_block(fdef.body, fr, guard)
         return fr.retval
+
+    def open_function(self, fn):
+        """parse the current source of fn without executing it: (FunctionDef, Frame) for loop-body mode"""
+        fn = unwrap_fn(fn)
+        qn_, src, sha = fn_source(fn)
+        self.ctx.encoded[qn_] = sha
+        fdef = ast.parse(src).body[0]
+        qn = fn.__qualname__.split(".")
+        return fdef, Frame(fn.__globals__, qn[-2] if len(qn) > 1 else None)
 
     # ---------- statements
     def active(self, fr, guard):
@@ -729,7 +742,7 @@ class Interp:
         pf = getattr(f, "py_func", None)
         if isinstance(f, staticmethod):
             return self.call_function(f, args, kwargs, guard)
-        if pf is not None or (inspect.isfunction(f) and f.__module__.startswith("corankco")):
+        if pf is not None or (inspect.isfunction(f) and f.__module__.startswith("corankco")) or hasattr(f, "__wrapped__"):
             return self.call_function(f, args, kwargs, guard)
         if any(is_sym(a) or isinstance(a, Arr) for a in list(args) + list(kwargs.values())):
             raise Unsupported(f"call {f} with symbolic args")
